@@ -611,6 +611,28 @@ def rule_index_sync(ctx):
                                     esc = True
                                     break
                                 todo.append(sb)
+                        if esc and {k for (_, k) in ms} <= {'clear', 'shrink_to_fit'}:
+                            # emptying a level and resetting its index commute: the reset may also precede the clear, as
+                            # long as it happens in the same pass (search backwards to the start of the pass)
+                            seenb = set()
+                            todo = [pos[0]]
+                            esc_back = False
+                            starts = (stops - {g.exit}) | {g.entry}
+                            while todo and not esc_back:
+                                b = todo.pop()
+                                if b in seenb:
+                                    continue
+                                seenb.add(b)
+                                if b in assign_blocks and b != pos[0]:
+                                    continue
+                                if b in starts and b != pos[0]:
+                                    esc_back = True
+                                    break
+                                for pb in g.pred[b]:
+                                    if pb in hp_blocks and g.succ[pb][1] == b and g.succ[pb][0] != b:
+                                        continue    # arrived through the false edge of has_pgm(x): no index at this level
+                                    todo.append(pb)
+                            esc = esc_back
                         if esc:
                             okall = False
                             why = (f"after `{kind}` of level({fmt_term(x)}) at line {f.n(i)['l']} the function can return (or move to the next level) "
